@@ -33,6 +33,9 @@ import (
 	mapset "github.com/deckarep/golang-set/v2"
 	sio "github.com/karagenc/socket.io-go"
 	eio "github.com/karagenc/socket.io-go/engine.io"
+	"github.com/karagenc/socket.io-go/parser"
+	jsonparser "github.com/karagenc/socket.io-go/parser/json"
+	"github.com/karagenc/socket.io-go/parser/json/serializer/stdjson"
 	"nhooyr.io/websocket"
 
 	"verifharness/rigs"
@@ -40,6 +43,19 @@ import (
 )
 
 func init() { register("lifecycle", lifecycleMain) }
+
+// The server can notice some ends (a cut polling stream, a silent client) only by its ping
+// timeout: every "the connection is gone" deadline is derived from the configured ping round
+// plus generous slack, and multiplied by lcPatience (-patient: re-runs of a scenario that did
+// not settle in time on a loaded machine).
+const (
+	lcPingInterval = time.Second
+	lcPingTimeout  = time.Second
+)
+
+var lcPatience = 1
+
+func lcGoneDeadline() time.Duration { return 3*(lcPingInterval+lcPingTimeout) + 6*time.Second }
 
 type lcScenario struct {
 	ID     int      `json:"id"`
@@ -68,6 +84,7 @@ type lcSockRow struct {
 	Rooms     []string `json:"rooms"`
 	ConnFlag  bool     `json:"conn_flag"`
 	OrderOK   bool     `json:"order_ok"` // every disconnecting callback was entered before the disconnect one
+	MwAtMs    int64    `json:"mw_at_ms"` // when the middleware was entered (ms since the rig started)
 }
 
 type lcRow struct {
@@ -84,6 +101,8 @@ type lcRow struct {
 	Bytes     [2]int64    `json:"bytes"`
 	ClientErr string      `json:"client_err"`
 	EnvFail   string      `json:"env_fail"` // environmental failure (rig could not even start): retried by the check
+	Sends     []string    `json:"sends"`    // what the scripted client sent ("ms:packet")
+	ReqLog    []string    `json:"reqlog"`   // requests the server saw
 }
 
 // ---------------------------------------------------------------- server side of the rig
@@ -94,6 +113,7 @@ type lcSock struct {
 	mwEnter, mwExit, connected       bool
 	discingM, discM, discingH, discH []string
 	orderBad                         bool
+	mwAt                             int64
 }
 
 type lcRig struct {
@@ -117,6 +137,18 @@ type lcRig struct {
 	gate    chan struct{} // closed = middleware may proceed
 	gateOne sync.Once
 
+	t0      time.Time
+	reqlog  []string // evidence: requests seen by the server
+	sends   []string // debugging: what the scripted client sent, with times
+	// "server shutdown during the handshake" family: the construction of the new connection is
+	// parked inside a user-supplied callback (Authenticator, or ParserCreator = inside
+	// Server.onSocket/newServerConn) while Server.Close runs
+	parkArmed   bool
+	parkEntered chan struct{}
+	parkRelease chan struct{}
+	parkEnt1    sync.Once
+	parkRel1    sync.Once
+
 	fired   []string
 	reached string
 	eioSid  string
@@ -130,6 +162,23 @@ func (r *lcRig) pulse() {
 }
 
 func (r *lcRig) release() { r.gateOne.Do(func() { close(r.gate) }) }
+
+func (r *lcRig) releasePark() { r.parkRel1.Do(func() { close(r.parkRelease) }) }
+
+// park blocks the calling server goroutine (once armed) until the test body releases it.
+func (r *lcRig) park() {
+	r.mu.Lock()
+	armed := r.parkArmed
+	r.mu.Unlock()
+	if !armed {
+		return
+	}
+	r.parkEnt1.Do(func() { close(r.parkEntered) })
+	select {
+	case <-r.parkRelease:
+	case <-time.After(15 * time.Second):
+	}
+}
 
 func (r *lcRig) releaseSlow() { r.slowRel1.Do(func() { close(r.slowRelease) }) }
 
@@ -158,7 +207,7 @@ func (r *lcRig) find(nsp string) *lcSock {
 
 // waitCond polls cond on every event pulse (and every 20 ms) until it holds or the deadline passes.
 func (r *lcRig) waitCond(d time.Duration, cond func() bool) bool {
-	deadline := time.Now().Add(d)
+	deadline := time.Now().Add(d * time.Duration(lcPatience))
 	for {
 		if cond() {
 			return true
@@ -175,18 +224,26 @@ func (r *lcRig) waitCond(d time.Duration, cond func() bool) bool {
 
 func newLcRig(sc lcScenario) (*lcRig, error) {
 	r := &lcRig{sc: sc, changed: make(chan struct{}, 1), gate: make(chan struct{}),
-		slowEntered: make(chan struct{}), slowRelease: make(chan struct{})}
+		slowEntered: make(chan struct{}), slowRelease: make(chan struct{}), t0: time.Now(),
+		parkEntered: make(chan struct{}), parkRelease: make(chan struct{})}
 	r.slowOn = sc.Phase == "slowclose" || sc.Phase == "slowidle"
 	cfg := &sio.ServerConfig{
 		EIO: eio.ServerConfig{
-			PingInterval:   time.Second,
-			PingTimeout:    time.Second,
+			PingInterval:   lcPingInterval,
+			PingTimeout:    lcPingTimeout,
 			UpgradeTimeout: 2 * time.Second,
 			WebSocketAcceptOptions: &websocket.AcceptOptions{
 				CompressionMode: websocket.CompressionDisabled,
 			},
 		},
 		ConnectTimeout: 60 * time.Second,
+	}
+	switch sc.Phase {
+	case "hsclose-parser":
+		inner := jsonparser.NewCreator(0, stdjson.New())
+		cfg.ParserCreator = func() parser.Parser { r.park(); return inner() }
+	case "hsclose-auth":
+		cfg.EIO.Authenticator = func(w http.ResponseWriter, req *http.Request) bool { r.park(); return true }
 	}
 	for _, c := range sc.Causes {
 		if c == "conntimeout" {
@@ -202,7 +259,7 @@ func newLcRig(sc lcScenario) (*lcRig, error) {
 		name := name
 		nsp := r.io.Of(name)
 		nsp.Use(func(socket sio.ServerSocket, h *sio.Handshake) any {
-			s := &lcSock{nsp: name, sid: string(socket.ID()), sock: socket, mwEnter: true}
+			s := &lcSock{nsp: name, sid: string(socket.ID()), sock: socket, mwEnter: true, mwAt: time.Since(r.t0).Milliseconds()}
 			r.mu.Lock()
 			r.socks = append(r.socks, s)
 			r.mu.Unlock()
@@ -278,7 +335,29 @@ func newLcRig(sc lcScenario) (*lcRig, error) {
 			r.pulse()
 		})
 	}
-	r.ts = httptest.NewServer(r.io)
+	r.ts = httptest.NewServer(http.HandlerFunc(func(w http.ResponseWriter, req *http.Request) {
+		// evidence: every request the server sees ("ms method transport sid bodyprefix")
+		var body string
+		if req.Method == "POST" && req.Body != nil {
+			b, rerr := io.ReadAll(req.Body)
+			if rerr != nil { // a cut body: the server must see the same read error after the same bytes
+				req.Body = io.NopCloser(io.MultiReader(strings.NewReader(string(b)), lcErrReader{rerr}))
+			} else {
+				req.Body = io.NopCloser(strings.NewReader(string(b)))
+			}
+			body = string(b)
+			if len(body) > 16 {
+				body = body[:16]
+			}
+		}
+		q := req.URL.Query()
+		r.mu.Lock()
+		if len(r.reqlog) < 60 {
+			r.reqlog = append(r.reqlog, fmt.Sprintf("%d %s %s %s %q", time.Since(r.t0).Milliseconds(), req.Method, q.Get("transport"), q.Get("sid"), body))
+		}
+		r.mu.Unlock()
+		r.io.ServeHTTP(w, req)
+	}))
 	p, err := rigs.NewProxy(strings.TrimPrefix(r.ts.URL, "http://"))
 	if err != nil {
 		r.ts.Close()
@@ -287,6 +366,10 @@ func newLcRig(sc lcScenario) (*lcRig, error) {
 	r.proxy = p
 	return r, nil
 }
+
+type lcErrReader struct{ err error }
+
+func (e lcErrReader) Read([]byte) (int, error) { return 0, e.err }
 
 // holdMiddleware: the namespace middleware is the window in which the connection may end.
 //   - scenario phase "middleware": hold until the test body releases the gate;
@@ -494,6 +577,9 @@ func (c *lcClient) dialWS(withSid bool) error {
 
 // send one Engine.IO packet (text) on the current transport.
 func (c *lcClient) send(p string) error {
+	c.r.mu.Lock()
+	c.r.sends = append(c.r.sends, fmt.Sprintf("%d:%s", time.Since(c.r.t0).Milliseconds(), p))
+	c.r.mu.Unlock()
 	if c.ws != nil {
 		if c.isMute() {
 			return errStop
@@ -597,6 +683,7 @@ func (r *lcRig) run() (row lcRow) {
 	defer func() {
 		r.release()
 		r.releaseSlow()
+		r.releasePark()
 		go func() { // tear down in the background: ts.Close waits for parked long-polls
 			r.io.Close()
 			c.stop()
@@ -612,6 +699,9 @@ func (r *lcRig) run() (row lcRow) {
 	var keepCancel context.CancelFunc = func() {}
 	script := func() error {
 		r.setReached("start")
+		if strings.HasPrefix(sc.Phase, "hsclose") {
+			return r.scriptHandshakeClose(c)
+		}
 		// --- open
 		if sc.Tr == "websocket" {
 			if err := c.dialWS(false); err != nil {
@@ -748,7 +838,7 @@ func (r *lcRig) run() (row lcRow) {
 	}
 
 	// --- fire the causes, all at once
-	if sc.Kind == "cause" && err == nil {
+	if sc.Kind == "cause" && err == nil && !strings.HasPrefix(sc.Phase, "hsclose") {
 		var wg sync.WaitGroup
 		go1 := make(chan struct{})
 		for _, cause := range sc.Causes {
@@ -774,7 +864,7 @@ func (r *lcRig) run() (row lcRow) {
 	if r.slowOn && row.EnvFail == "" {
 		// the close of "/" is parked in its disconnecting handler: now the other namespace's
 		// middleware returns (admission while the connection's close loop is busy), then the handler
-		r.waitCond(9*time.Second, func() bool {
+		r.waitCond(lcGoneDeadline(), func() bool {
 			select {
 			case <-r.slowEntered:
 				return true
@@ -828,7 +918,7 @@ func (r *lcRig) run() (row lcRow) {
 	}
 
 	// --- settle: the connection is gone for the server ...
-	gone := r.waitCond(9*time.Second, func() bool { return r.probeOnce() == 1 || r.eioSid == "" })
+	gone := r.waitCond(lcGoneDeadline(), func() bool { return r.eioSid == "" || r.probeOnce() == 1 })
 	// ... then let a held middleware go on (admission after the end of the connection) ...
 	r.release()
 	admitted := r.waitCond(3*time.Second, func() bool {
@@ -843,7 +933,7 @@ func (r *lcRig) run() (row lcRow) {
 	})
 	time.Sleep(150 * time.Millisecond) // doConnect + connection handler goroutine after the middleware
 	// ... and every socket that connected reports its end (deadline generous; only a leak waits it out)
-	reported := r.waitCond(4*time.Second, func() bool { return r.allReported(true) })
+	reported := r.waitCond(6*time.Second, func() bool { return r.allReported(true) })
 	time.Sleep(120 * time.Millisecond) // a duplicate report would arrive now
 	row.Settled = gone && admitted && reported
 	row.WaitMs = time.Since(start).Milliseconds()
@@ -856,6 +946,8 @@ func (r *lcRig) run() (row lcRow) {
 	row.EioSid = r.eioSid
 	r.mu.Lock()
 	row.Fired = append([]string{}, r.fired...)
+	row.Sends = append([]string{}, r.sends...)
+	row.ReqLog = append([]string{}, r.reqlog...)
 	row.Reached = r.reached
 	socks := append([]*lcSock{}, r.socks...)
 	r.mu.Unlock()
@@ -867,7 +959,7 @@ func (r *lcRig) run() (row lcRow) {
 	}
 	for _, s := range socks {
 		nsp := r.io.Of(s.nsp)
-		sr := lcSockRow{Nsp: s.nsp, Sid: s.sid}
+		sr := lcSockRow{Nsp: s.nsp, Sid: s.sid, MwAtMs: s.mwAt}
 		r.mu.Lock()
 		sr.MwEnter, sr.MwExit, sr.Connected = s.mwEnter, s.mwExit, s.connected
 		sr.DiscingM = append([]string{}, s.discingM...)
@@ -903,6 +995,61 @@ func (r *lcRig) run() (row lcRow) {
 	}
 	row.Bytes[0], row.Bytes[1] = r.proxy.Bytes()
 	return row
+}
+
+// scriptHandshakeClose: the client opens a session; the server parks its construction in a user
+// callback; Server.Close runs meanwhile; the construction goes on; the client then sends CONNECT on
+// whatever it got.  Afterwards nothing may be left and no socket may be connected unreported.
+func (r *lcRig) scriptHandshakeClose(c *lcClient) error {
+	r.mu.Lock()
+	r.parkArmed = true
+	r.mu.Unlock()
+	opened := make(chan error, 1)
+	go func() {
+		if r.sc.Tr == "websocket" {
+			if err := c.dialWS(false); err != nil {
+				opened <- err
+				return
+			}
+			select {
+			case s, ok := <-c.wsIn:
+				if !ok {
+					opened <- fmt.Errorf("websocket closed before open")
+					return
+				}
+				opened <- c.parseOpen(s)
+			case <-time.After(8 * time.Second):
+				opened <- fmt.Errorf("no open packet")
+			}
+			return
+		}
+		opened <- c.handshakePolling()
+	}()
+	select {
+	case <-r.parkEntered:
+	case <-time.After(8 * time.Second):
+		return fmt.Errorf("server callback not reached")
+	}
+	r.setReached("parked")
+	r.fire("srvclose")
+	r.io.Close()
+	r.releasePark()
+	var err error
+	select {
+	case err = <-opened:
+	case <-time.After(10 * time.Second):
+		err = fmt.Errorf("open did not return")
+	}
+	r.setReached("opened")
+	if err != nil {
+		return nil // the handshake was refused / the transport closed: the expected outcome
+	}
+	// a session came out of it: use it
+	if e := c.send("40"); e == nil {
+		c.waitPacket("40", 1, 1500*time.Millisecond)
+	}
+	r.setReached("connect-sent")
+	return nil
 }
 
 // allReported: every socket whose connection handler ran has seen its disconnect handler
@@ -1001,6 +1148,13 @@ func lcScenarios(tier string, seed uint64, stride int) []lcScenario {
 			}
 		}
 	}
+	// Server.Close while a new connection is being constructed (parked in the Authenticator, or in
+	// the ParserCreator = inside the new-socket callback), then CONNECT on whatever came out
+	for _, tr := range []string{"polling", "websocket"} {
+		for _, ph := range []string{"hsclose-parser", "hsclose-auth"} {
+			add(lcScenario{Kind: "cause", Tr: tr, Phase: ph, Causes: []string{"srvclose"}, Nsps: 1, CutAt: -1})
+		}
+	}
 	// several causes at once (seeded subsets of size 2..4)
 	rnd := vk.NewRand(seed)
 	nMulti := 36
@@ -1076,6 +1230,7 @@ func lifecycleMain(args []string) error {
 	only := fs.String("only", "", "JSON scenario to run alone (replay)")
 	list := fs.Bool("list", false, "print the scenarios only")
 	phase := fs.String("phase", "", "run only the scenarios of this phase (debugging)")
+	patient := fs.Bool("patient", false, "triple every deadline (re-run of a scenario that did not settle)")
 	outp := fs.String("out", "-", "")
 	fs.Parse(args)
 	out, err := vk.NewOut(*outp)
@@ -1084,6 +1239,9 @@ func lifecycleMain(args []string) error {
 	}
 	defer out.Close()
 
+	if *patient {
+		lcPatience = 3
+	}
 	var scs []lcScenario
 	if *only != "" {
 		var s lcScenario
